@@ -583,7 +583,11 @@ def lin_paths(P, F, body, base_call=None, event_call=None, inline=None, max_path
             nxt = t.get("to")
             tag = event_call(key)
             if tag:
-                events = events + [(tag, [val_of_op(env, a) for a in t["args"]])]
+                def _ev(a):
+                    if a[0] == "k" and (a[1].get("def") or (a[1].get("val") is None and a[1].get("text"))):
+                        return ("const", a[1].get("def") or a[1].get("text"))
+                    return val_of_op(env, a)
+                events = events + [(tag, [_ev(a) for a in t["args"]])]
             if key.endswith("from_residual"):
                 return            # error propagation
             if dproj:
